@@ -33,6 +33,11 @@ func TestCorpus(t *testing.T) { vh.Corpus(t) }
 type Case struct {
 	Spec     sxgkit.Spec `json:"spec"`
 	ChainLen int         `json:"chain_len"` // certificates handed to the signer (1..3)
+	// RawValidity (reverse sub-check only): the other implementation wrote the validity URL in a
+	// valid spelling that Go's url.Parse(...).String() would not reproduce ("empty-fragment": a
+	// trailing '#'; "upper-scheme": HTTPS://; "empty-port": host followed by ':'). The signed
+	// message holds the bytes of the Signature header's validity-url, whatever their spelling.
+	RawValidity string `json:"raw_validity,omitempty"`
 }
 
 func digestFor(key *ecdsa.PrivateKey, msg []byte) []byte {
@@ -228,6 +233,17 @@ var reverse = vh.Define("C08", "reverse", func(c Case, r *vh.R) {
 	re := canon.RefExchange()
 	hdr := refsxg.HeadersCBOR(re)
 	vu := mustURL(s.ValidityURL).String()
+	switch c.RawValidity {
+	case "empty-fragment":
+		if !strings.Contains(vu, "#") {
+			vu += "#"
+		}
+	case "upper-scheme":
+		vu = "HTTPS" + strings.TrimPrefix(vu, "https")
+	}
+	if c.RawValidity != "" {
+		r.Class("validity-url-spelling-not-a-go-fixpoint")
+	}
 	certSha := gen.CertSha256(f.Leaf)
 	msg := refsxg.SignedMessage(re, certSha, vu, s.Date, s.Expires)
 	sig, err := ecdsa.SignASN1(rand.Reader, f.Key, digestFor(f.Key, msg))
@@ -311,7 +327,11 @@ func TestPropForward(t *testing.T) {
 }
 
 func TestPropReverse(t *testing.T) {
-	reverse.Rapid(t, func(t *rapid.T) Case { return genCase(t, true) })
+	reverse.Rapid(t, func(t *rapid.T) Case {
+		c := genCase(t, true)
+		c.RawValidity = rapid.SampledFrom([]string{"", "", "empty-fragment", "upper-scheme"}).Draw(t, "rawvalidity")
+		return c
+	})
 }
 
 var _ = time.Now
